@@ -12,6 +12,92 @@ namespace
   unsigned long count = 0;
   bool fired = false;
 
+  // Address recycling (plain flavour only, and only while a scenario asks for it): every block carries a small
+  // header with its size, and a freed block is handed to the next request of the same size class, most recently
+  // freed first. A world that is destroyed and built again from a file of the same shape then finds its objects
+  // at addresses that objects of its predecessor had - the situation in which state keyed by an address, or left
+  // behind in memory, shows. glibc does this now and then; here the scenario decides.
+#ifdef GWB_SIM_RECYCLE
+  const std::size_t HEADER = 16, MAX_RECYCLED = 8192, CLASSES = MAX_RECYCLED / 16 + 1;
+  struct FreeBlock
+  {
+    FreeBlock *next;
+  };
+  FreeBlock *free_list[CLASSES];
+  int recycle = 0;
+  unsigned long recycled = 0;
+  volatile char list_lock = 0;
+  inline void lock()
+  {
+    while (__atomic_exchange_n(&list_lock, 1, __ATOMIC_ACQUIRE))
+      {}
+  }
+  inline void unlock()
+  {
+    __atomic_store_n(&list_lock, 0, __ATOMIC_RELEASE);
+  }
+  inline void *raw_alloc(std::size_t n)
+  {
+    const std::size_t cls = (n + 15) / 16;
+    if (recycle && cls < CLASSES)
+      {
+        lock();
+        FreeBlock *b = free_list[cls];
+        if (b != nullptr)
+          {
+            free_list[cls] = b->next;
+            ++recycled;
+          }
+        unlock();
+        if (b != nullptr)
+          return b; // the header in front of it is still valid
+      }
+    char *p = static_cast<char *>(std::malloc(HEADER + (cls ? cls * 16 : 16)));
+    if (p == nullptr)
+      return nullptr;
+    *reinterpret_cast<std::size_t *>(p) = cls;
+    return p + HEADER;
+  }
+  inline void raw_free(void *q)
+  {
+    if (q == nullptr)
+      return;
+    char *p = static_cast<char *>(q) - HEADER;
+    const std::size_t cls = *reinterpret_cast<std::size_t *>(p);
+    if (recycle && cls < CLASSES)
+      {
+        FreeBlock *b = static_cast<FreeBlock *>(q);
+        lock();
+        b->next = free_list[cls];
+        free_list[cls] = b;
+        unlock();
+        return;
+      }
+    std::free(p);
+  }
+  void flush_lists()
+  {
+    lock();
+    for (std::size_t c = 0; c < CLASSES; ++c)
+      while (free_list[c] != nullptr)
+        {
+          FreeBlock *b = free_list[c];
+          free_list[c] = b->next;
+          std::free(reinterpret_cast<char *>(b) - HEADER);
+        }
+    unlock();
+  }
+#else
+  inline void *raw_alloc(std::size_t n)
+  {
+    return std::malloc(n ? n : 1);
+  }
+  inline void raw_free(void *p)
+  {
+    std::free(p);
+  }
+#endif
+
   inline void *do_alloc(std::size_t n)
   {
     if (armed)
@@ -23,7 +109,7 @@ namespace
             throw std::bad_alloc();
           }
       }
-    void *p = std::malloc(n ? n : 1);
+    void *p = raw_alloc(n);
     if (p == nullptr)
       throw std::bad_alloc();
     return p;
@@ -51,6 +137,24 @@ namespace sim
   bool alloc_fired()
   {
     return fired;
+  }
+  void alloc_recycle(int mode)
+  {
+#ifdef GWB_SIM_RECYCLE
+    recycle = mode;
+    if (mode == 0)
+      flush_lists();
+#else
+    (void) mode;
+#endif
+  }
+  unsigned long alloc_recycled()
+  {
+#ifdef GWB_SIM_RECYCLE
+    return recycled;
+#else
+    return 0;
+#endif
   }
 }
 
@@ -94,26 +198,26 @@ void *operator new[](std::size_t n, const std::nothrow_t &) noexcept
 }
 void operator delete(void *p) noexcept
 {
-  std::free(p);
+  raw_free(p);
 }
 void operator delete[](void *p) noexcept
 {
-  std::free(p);
+  raw_free(p);
 }
 void operator delete(void *p, std::size_t) noexcept
 {
-  std::free(p);
+  raw_free(p);
 }
 void operator delete[](void *p, std::size_t) noexcept
 {
-  std::free(p);
+  raw_free(p);
 }
 void operator delete(void *p, const std::nothrow_t &) noexcept
 {
-  std::free(p);
+  raw_free(p);
 }
 void operator delete[](void *p, const std::nothrow_t &) noexcept
 {
-  std::free(p);
+  raw_free(p);
 }
 #endif
